@@ -934,6 +934,7 @@ func (ro *RedisOutput) sendCmdsBatch(replayWait usync.WaitCloser, conn client.Re
 
 	type cmdBatcher struct {
 		bt         common.CmdBatcher
+		cp         common.CmdBatcher // checkpoint to store once bt is acknowledged (cluster)
 		cmdCounter uint
 		offset     uint
 		delayNs    int64
@@ -964,6 +965,9 @@ func (ro *RedisOutput) sendCmdsBatch(replayWait usync.WaitCloser, conn client.Re
 					return
 				}
 				_, err := bat.bt.Receive()
+				if err == nil && bat.cp != nil {
+					_, err = bat.cp.Exec()
+				}
 				if err != nil {
 					handleError(bat, err)
 					return
@@ -1006,6 +1010,20 @@ func (ro *RedisOutput) sendCmdsBatch(replayWait usync.WaitCloser, conn client.Re
 			}
 		}
 
+		// A cluster batch is fanned out per node and pipelined without MULTI/EXEC: a command
+		// that is redirected (MOVED/ASK) or refused (TRYAGAIN) stops neither the commands queued
+		// behind it nor the other nodes.  The resume position of such a batch must therefore
+		// not travel with it; it is stored by a batch of its own once this one is acknowledged.
+		var cpBatcher common.CmdBatcher
+		cpTarget := batcher
+		if conn.RedisType() == config.RedisTypeCluster {
+			if shouldInTransaction {
+				batcher.Put("exec")
+			}
+			cpBatcher = conn.NewBatcher(false)
+			cpTarget = cpBatcher
+		}
+
 		// lastOffset is undefined (-1) until the first stream item has been consumed:
 		// a ticker or shutdown flush before that must not overwrite the stored position
 		if shouldUpdateCP && lastOffset >= 0 {
@@ -1014,9 +1032,9 @@ func (ro *RedisOutput) sendCmdsBatch(replayWait usync.WaitCloser, conn client.Re
 				// database, so write it with the first checkpoint that goes to a database
 				if _, ok := cpInDbs[dbAfter]; !ok {
 					cpInDbs[dbAfter] = struct{}{}
-					batcher.Put("hset", checkpointKv.Key, checkpointKv.RunIdKey(), runId, checkpointKv.VersionKey(), config.Version)
+					cpTarget.Put("hset", checkpointKv.Key, checkpointKv.RunIdKey(), runId, checkpointKv.VersionKey(), config.Version)
 				}
-				batcher.Put("hset", checkpointKv.Key, checkpointKv.OffsetKey(), lastOffset)
+				cpTarget.Put("hset", checkpointKv.Key, checkpointKv.OffsetKey(), lastOffset)
 			} else {
 				ro.cpGuard.Lock()
 				ro.checkpointInMem.Offset = lastOffset
@@ -1024,10 +1042,13 @@ func (ro *RedisOutput) sendCmdsBatch(replayWait usync.WaitCloser, conn client.Re
 			}
 		}
 
-		if shouldInTransaction {
+		if shouldInTransaction && cpBatcher == nil {
 			batcher.Put("exec")
 		}
-		if batcher.Len() == 0 {
+		if cpBatcher != nil && cpBatcher.Len() == 0 {
+			cpBatcher = nil
+		}
+		if batcher.Len() == 0 && cpBatcher == nil {
 			return nil
 		}
 
@@ -1054,6 +1075,7 @@ func (ro *RedisOutput) sendCmdsBatch(replayWait usync.WaitCloser, conn client.Re
 			select {
 			case pipeline <- &cmdBatcher{
 				bt:         batcher,
+				cp:         cpBatcher,
 				cmdCounter: cmdCounter,
 				offset:     uint(lastOffset),
 				delayNs:    delayNs,
@@ -1085,6 +1107,14 @@ func (ro *RedisOutput) sendCmdsBatch(replayWait usync.WaitCloser, conn client.Re
 		}
 
 		queuedByteSize = 0
+
+		if !isPipeline && cpBatcher != nil {
+			// the commands are acknowledged and dequeued: a failure here only repeats the checkpoint
+			if _, err := cpBatcher.Exec(); err != nil {
+				ro.logger.Errorf("exec checkpoint error %v", err)
+				return err
+			}
+		}
 		return nil
 	}
 
